@@ -30,8 +30,13 @@ T_C01 = [('Bashlex.C01.' + t, C01M) for t in ['C01_partial', 'C01_partial_single
 T_C01E = [('Bashlex.Final.' + t, 'Bashlex.Props.Final') for t in ['C01_engine_terminates', 'C01_engine_terminates_run', 'C01_partial_noLRFuel']] + \
          [('Bashlex.LR.' + t, 'Bashlex.Props.C01Engine') for t in ['real_rankCheck', 'pot_reduce', 'engine_terminates', 'engine_terminates_ord']] + \
          [('Bashlex.C01E.' + t, 'Bashlex.Props.C01Engine') for t in ['seq_terminates_list', 'act_exn', 'next_budget', 'C01_engine_terminates_conditional', 'C01_engine_terminates_budget_conditional']]
+T_C01E += [('Bashlex.C01.' + t, 'Bashlex.Props.C01Tight') for t in ['C01_partial_tight', 'C01_partial_single_tight', 'C01_partial_split_tight', 'C01_parserRun_tight', 'k_parserRun', 'next8_good', 'parserRun8',
+           'f_gatherheredocuments', 'sat_tokeninit_false', 'sat_isassignment_false']] + [('Bashlex.C11.C11_split', 'Bashlex.Props.C01Tight')] + \
+          [('Bashlex.C01E.' + t, 'Bashlex.Props.C01Loops') for t in ['split_terminates', 'C01_partial_split_tight', 'C01_nesting_bound', 'C01_partial_split_nofuel']]
 T_ACT = [('Bashlex.ActGen.' + t, 'Bashlex.Props.ActGen') for t in ['actgen_agree', 'actgen_covered', 'partsspan_dup', 'partsspan_discard']]
 reg('C01', 'propchecks.c01', 'proof', [("Bashlex.C11.C01_partial'", 'Bashlex.Props.C11Total'), ('Bashlex.C11.no_init_assert', 'Bashlex.Props.C11Total')] + T_C01E + T_C01 + T1, [ASCII, DEPTH, CORR,
+    'Props/C01Tight.lean, Props/C01/Tight*.lean (5100 lines): ALL 14 raise sites of the tokenizer for exceptions outside the contract are proved UNREACHABLE (tokForeignTight = []), for parse, parsesingle and split - C01_partial_tight: 7 from parameters and loop states, 2 local to token(), 2 with a parser-object invariant (the line never ends in a backslash; ids on redirstack are in the store) carried through tokenizer, word expansion, all actions, engine, nested parsers, 2 with the cursor-level facts of C03/C11 (REGEXP/DBLPAREN are never set); kernel-checked STATE witnesses show the state-free formulation false for four of them; what is left in the list: the 3 recorded defects D24/D18/D35 (witnesses) and 3 sites above the tokenizer not excluded (visitnode, _extractcommandsubst, _expandwordinternal). '
+    'Props/C01Loops.lean: split_terminates / C01_partial_split_nofuel (the loop of split makes at most |line|+1 iterations: every token pays a unit of the tape; none of the three fuel markers for split), C01_nesting_bound (the nesting marker needs at least 64 opener characters in the input - the property\'s clause about recursion limits); f_gatherheredocuments (that loop never runs out of fuel). Still covered by fuel only: 7 character loops of the tokenizer. '
     'Props/C01Engine*.lean + Props/Final.lean: TERMINATION OF THE LR ENGINE LOOP is proved (C01_engine_terminates, no hypothesis since RootEnds is a theorem): a ranking certificate (weight 8 per state accessed by a non-nullable symbol, rank <= 7) is regenerated with the tables by the translator (tools/lrrank.py -> Gen/Rank.lean) and CHECKED by the kernel (real_rankCheck: every reduction strictly decreases the potential, no reduction cycle); engine_terminates: at most 16*m+1 iterations for a token budget m, for every token source; '
     'next_budget: the real tokenizer pays one unit of |line| - cursor per token; hence on inputs with 16*(|s|+1) < 2^30 neither parse nor parsesingle can raise outOfFuel "LRParser.parse" (C01_partial_noLRFuel) - the fuel marker of the engine is no longer in the allowed list. ',
     "C01_partial' (Props/C11Total.lean) removes AssertionError|ParsingError.__init__ from the list: error positions are proved in range. " +
@@ -72,8 +77,10 @@ T_C05 += [('Bashlex.C05.' + t, 'Bashlex.Props.C05Checked') for t in ['C05_total_
 T_C05 += [('Bashlex.C05.' + t, 'Bashlex.Props.C05Chars') for t in ['C05_chars_checked', 'posLay_charLay', 'skip_isLayout']] + [('Bashlex.C05.TG.' + t, 'Bashlex.Props.C05.TokGapsProof') for t in ['tokGaps_next', 'tokGaps_gather', 'tokLogG', 'tokLogGL', 'tokGapsC']]
 T_C05 += [('Bashlex.C05.' + t, 'Bashlex.Props.C05Final') for t in ['C05_chars_total', 'C05_final', 'C05_chain_checked', 'TGT.posLay_overapprox', 'run_gapsOK', 'coverOK_sound', 'act_ids', 'TGT.tokLogX', 'TGT.gap_layout', 'TGT.none_layout', 'TGT.tiled_of_covers']] + \
          [('Bashlex.C03.act_store', 'Bashlex.Props.C05Final'), ('Bashlex.LR.run_sound_ordB', 'Bashlex.Props.C05Final')]
+T_C05 += [('Bashlex.C05.' + t, 'Bashlex.Props.C05Cover') for t in ['C05_coverOK_plain', 'C05_coverOK_plain_nil', 'C05_run_gapsOK']]
 T_C05 += T_ROOT + [('Bashlex.Totals.C05_total', 'Bashlex.Props.Totals'), ('Bashlex.Totals.C05_total_single', 'Bashlex.Props.Totals'), ('Bashlex.Final.C05_final', 'Bashlex.Props.Final'), ('Bashlex.Final.C05_chars_total', 'Bashlex.Props.Final')]
 reg('C05', 'propchecks.treespec', 'proof', T_C05 + T1, [ASCII, DEPTH, CORR,
+    'Props/C05Cover.lean: the link to the EXECUTABLE spec - C05_coverOK_plain_nil: for results without here-document body leaves and without D19 (plainLeaves), under rootsAtLeaves (nextIndex = end of the last leaf) and SortOK (Array.qsort returned a sorted permutation), all three decidable on (s, parts), Spec.coverOK reports NOTHING (no overlap, no gap, no trailing text, across runs); evaluated: the conditions hold on all 779 + 1424 + 791 plain accepted inputs of the validation corpora. ' +
     'Final.C05_final / Final.C05_chars_total / Totals.C05_total: with RootEnds proved no per-input condition is left (only the fuel bound of the model, |s|+1 < 2^30). ',
     'Props/C05Final.lean, Props/C05/F*.lean (4950 lines): the sub-task found C05_chars_checked WEAKER than it reads (posLay_overapprox, kernel-checked: PosLay is a property of the text alone, every character after any # on a line counts as layout - a token dropped behind a # inside a word would not be noticed) and repaired it: Skips are anchored at the end of the previous token (Chain), regions consumed by gatherheredocuments are newline / continuation / recorded body (GRegT, a re-walk of the tokenizer). '
     'C05_chars_total: the gathered-body disjunct is GONE - every gathered body is a leaf of the tree flagged as a body (act_ids: all 39 actions conserve the pending redirects of their arguments; act_store: only p_redirection_heredoc appends a store cell); D11 needs no exclusion (it is about which text is the body). '
@@ -103,7 +110,9 @@ T_C14 += [('Bashlex.C14.' + t, 'Bashlex.Props.C14More') for t in ['runParser_lay
           'runParser_layout_only', 'parse_layout_only', 'parse_layout_suffix', 'C13_partial_layout', 'C14_insert_between', 'consumeX', 'D19_comment_witness', 'D19_comment_parsed', 'joinable_witness', 'local_witness']]
 T_C14 += [('Bashlex.C14I.' + t, 'Bashlex.Props.C14Interior') for t in ['engine_from', 'actNat_all', 'actions_covered', 'cfgR_self', 'C14_interior_phase2_conditional', 'C14_interior_SI_conditional',
           'C14_interior_runParser_conditional', 'widen_validated', 'eol_validated', 'D31_widen_witness', 'heredoc_adjacent_witness', 'heredoc_delim_witness', 'D19_no_exclusion', 'tok_double', 'tok_double_map', 'gather_double', 'sim_double', 'C14_interior_parsesingle_conditional', 'C14_interior_parse_first_conditional']]
+T_C14 += [('Bashlex.C14.' + t, 'Bashlex.Props.C14Total') for t in ['run_root', 'parseStop_le', 'parse_layout_prefix_total', 'parse_layout_suffix_total', 'C14_insert_between_total']]
 reg('C14', 'propchecks.relprops', 'proof', T_C14 + (T1[:1] + TLEX), [ASCII, DEPTH, CORR,
+    'Props/C14Total.lean: the span hypotheses hpos and hstop of the parse-level layout theorems are discharged (run_root, parseStop_le) down to ONE universal hypothesis NoD19 (no constant-span time node when proceedonerror is off: true - p_timespec raises - but proved only inside the relational engine; 0 failures on 8640 evaluated inputs); hrest is kept: it is FALSE for an input ending in a comment without newline (witness a, newline, #c), where the conclusion still holds - the suffix theorem does not cover such inputs. ',
     'Props/C14Interior.lean (layout INSIDE a command, partial): the LR engine, resolve and all 39 action functions are natural in an ARBITRARY span map f with f(0,0)=(0,0) that commutes with first-start/last-end and keeps start<end (engine_from, actNat_all - the actions never do arithmetic on positions), so from any pair of related configurations the run on X++ins++Y returns the tree of the run on X++Y with Node.mapPos (spanMap |X| |ins|); '
     'what is LEFT are three tokenizer-side hypotheses of C14_interior_runParser_conditional (nextToken, word expansion and gatherheredocuments relate the two tapes from the gap on); the target statement is validated by decide +kernel on a corpus (widen_validated, eol_validated) with witnesses for its exclusions (D31 behind an escaped blank, the opening and delimiter lines of here-documents); D19 is no exclusion here. ',
     'Props/C14More.lean: the prefix may be any LAYOUT = ([ \\t\\n] | #...newline | backslash-newline)* (comment lines and continuations included; a backslash at the end of a comment continues nothing): runParser_layout_all (one run, all B), '
@@ -143,7 +152,10 @@ T_C08 = [('Bashlex.C08.' + t, C08M) for t in ['C08_accept_derivable', 'C08_accep
          'parseMatchedPair_sq_raises', 'C08_unterminated_squote', 'C08_unterminated_dquote', 'C08_unterminated_bquote', 'C08_leading_rparen', 'C08_leading_bar', 'C08_leading_semi',
          'run_rejects_leading', 'loop_rejects_pair', 'run_rejects_first_pair', 'redir_pairs', 'ctrl_pairs', 'leadingRejected_names', 'listHooks_rejects_leading', 'listHooks_rejects_redir',
          'C08_heredoc_unterminated', 'C08_heredoc_strict']]
+T_C08 += [('Bashlex.C08.' + t, 'Bashlex.Props.C08More') for t in ['balance_ok', 'sentence_balanced', 'C08_unclosed_never_accepted', 'cert_ok', 'valid_noBad', 'C08_adjacent_never_accepted', 'C08_parts_clean',
+          'C08_unterminated_brace', 'C08_unterminated_arith', 'unterminated_trigger', 'C08_accept_text_conditional']]
 reg('C08', 'propchecks.c08', 'proof', T_C08 + T1, [ASCII, DEPTH, CORR,
+    'Props/C08More.lean: C08_unclosed_never_accepted - for every token source, what the engine accepts is BALANCED (balance_ok, kernel-decided on the regenerated productions: #{ = #}, #if = #fi, #case = #esac, #do = #done, #[[ = #]], #if + #elif = #then, #( <= #), ...), so a stream that meets $end with an opener still open has no normal return; C08_adjacent_never_accepted - no accepted stream holds a doubled or dangling control operator among 28 pairs over ; & && || | |& (FIRST/LAST/nullable certificates checked by the kernel: cert_ok); the four pairs after ; are derivable (! ; ; a is accepted) and left out; C08_parts_clean: both facts for the run behind every returned part; C08_unterminated_brace / _arith (all lengths). C08_accept_text_conditional (the text-level tiling) keeps the hypothesis LogLink. ',
     'Props/C08*.lean (3050 lines): (1) C08_accept_derivable - NO PREFIX ACCEPTANCE: whenever parse returns parts, the runs tile the input (run i+1 starts at the restart index after part i, the last run ends at or beyond the end) and every run consumed '
     'leading NEWLINEs followed by exactly the yield of a valid derivation tree of the declared grammar rooted in an accepting symbol (engine_good, from C09_exact; run_consumed: the delivered terminals are consumed ++ at most one look-ahead); '
     '(2) unterminated quotes: mpPre_eof / csA_eof (end of input inside _parse_matched_pair / _parse_comsub IS the unexpected-EOF ParsingError), parseMatchedPair_closes, and for ALL lengths C08_unterminated_squote / _dquote / _bquote (plain prefix, then an opening quote never closed => that ParsingError at the end of input); '
